@@ -47,6 +47,8 @@ CATALOGUE = {
     "duplicate_statements": "program d\n  integer :: i, j\n  i = 1\n  j = 2\n  i = 1\n  print *, i, j\n  j = 2\n  print *, i, j\nend program d\n",
     "same_text_different_names": ("subroutine q(a, n)\n  integer :: n, i\n  real :: a(n)\n  first: do i = 1, n\n    a(i) = 0\n  end do first\n  second: do i = 1, n\n    a(i) = 1\n  end do second\n"
                                   "  chk1: if (n > 0) then\n    a(1) = 2\n  end if chk1\n  chk2: if (n > 0) then\n    a(1) = 3\n  end if chk2\n10 continue\n20 continue\nend subroutine q\n"),
+    "block_data_units": "block data bd\n  common /c/ a, b\n  data a /1/, b /2/\nend block data bd\nblock data\n  common /d/ e\nend block data\n",
+    "select_type_names": "subroutine st(obj)\n  class(*) :: obj\n  sel: select type (q => obj)\n  type is (integer) sel\n    k = 1\n  class is (tt) sel\n    k = 2\n  class default sel\n    k = 3\n  end select sel\nend subroutine st\n",
     "anonymous_main": "integer :: a, b(3)\nreal :: x\na = 1\nif (a > 0) then\n  b(a) = 2\nend if\ncall s(a)\nend\nsubroutine s(k)\n  integer :: k\n  k = k + 1\nend subroutine s\n",
 }
 F2008_EXTRA = {
